@@ -58,6 +58,8 @@ pub fn spec_of(g: &Grid, horizon_s: u64, window: (u64, u64)) -> NetSpec {
         per_frame: Some(Jitter { pattern: g.pattern, seed: simcore::report::seed() as u64, choice_window_ns: (window.0 * SEC, window.1 * SEC) }),
         tx_ts_latency_ns: g.tx_ts_latency_ns,
         one_step: vec![g.one_step, false],
+        path_asymmetry_ns: 0,
+        overlay: vec![],
     }
 }
 
@@ -109,7 +111,27 @@ pub struct Outcome {
 }
 
 pub fn run_one(g: &Grid, dev: &[(usize, usize)], window: (u64, u64), horizon_s: u64) -> Outcome {
-    let spec = spec_of(g, horizon_s, window);
+    run_spec(g, spec_of(g, horizon_s, window), dev)
+}
+
+/// the same loop over a path that is `a` ns slower towards the slave and `a` ns faster back, with
+/// the slave port's delayAsymmetry configured to `a`: the corrected path is symmetric again
+pub fn run_compensated(g: &Grid, a: i64) -> Outcome {
+    let mut spec = spec_of(g, LONG_HORIZON_S / 2, (0, 0));
+    spec.path_asymmetry_ns = a;
+    spec.nodes[1].ports[0].asymmetry_ns_frac = (a as i128) << 32;
+    run_spec(g, spec, &[])
+}
+
+/// the same loop with the slave's clock being statime's OverlayClock over a read-only raw
+/// oscillator (the daemon's virtual-system-clock configuration)
+pub fn run_overlay(g: &Grid) -> Outcome {
+    let mut spec = spec_of(g, LONG_HORIZON_S / 2, (0, 0));
+    spec.overlay = vec![false, true];
+    run_spec(g, spec, &[])
+}
+
+fn run_spec(g: &Grid, spec: NetSpec, dev: &[(usize, usize)]) -> Outcome {
     let mut choices = Choices::with(dev);
     let res = simulate(&spec, &[], &mut choices, SEC / 4);
     let mut v = vec![];
@@ -337,6 +359,44 @@ pub fn run(tier: Tier) -> i32 {
             .collect();
         results.extend(r);
         rep.cover("very_long_executions", json!({"count": long.len(), "horizon_s": VERY_LONG_HORIZON_S}));
+    }
+    // compensated asymmetric paths (delayAsymmetry configured to the path's asymmetry)
+    {
+        let pts: Vec<(Grid, i64)> = [(20.0f64, 100_000u64, 2_000u64, 0i8, 2u8, false, 60_000i64), (-150.0, 100_000, 0, -3, 0, true, -35_000), (0.0, 400_000, 2_000, 1, 2, false, -250_000)]
+            .iter()
+            .map(|&(ppm, d, j, l, pat, os, a)| (Grid { offset_ns: -900_000, ppm, delay_ns: d, jitter_ns: j, log_sync: l, log_delay: l, pattern: pat, tx_ts_latency_ns: 0, one_step: os }, a))
+            .collect();
+        let r: Vec<R> = pts
+            .par_iter()
+            .map(|(g, a)| {
+                let mut viols = vec![];
+                let o = run_compensated(g, *a);
+                let v = o.violations.into_iter().map(|(s, m)| (format!("compensated-asymmetry:{s}"), format!("{m} [path asymmetry {a} ns, delayAsymmetry {a} ns]"))).collect();
+                viol(g, (0, 0), &[], v, &mut viols);
+                (1, viols, None, 0, 0)
+            })
+            .collect();
+        results.extend(r);
+        rep.cover("compensated_asymmetric_path_executions", json!(pts.len()));
+    }
+    // the slave's clock is an OverlayClock (ahead of and behind the master at the start)
+    {
+        let pts: Vec<Grid> = [(7_300_000_000i64, 120.0f64, 100_000u64, 2_000u64, 0i8, 2u8, false), (800_000_000, 20.0, 1_000, 0, 0, 0, true), (-2_500_000_000, -150.0, 400_000, 2_000, -3, 2, false), (500_000, 0.0, 100_000, 20_000, 1, 2, false)]
+            .iter()
+            .map(|&(o, ppm, d, j, l, pat, os)| Grid { offset_ns: o, ppm, delay_ns: d, jitter_ns: j, log_sync: l, log_delay: l, pattern: pat, tx_ts_latency_ns: 0, one_step: os })
+            .collect();
+        let r: Vec<R> = pts
+            .par_iter()
+            .map(|g| {
+                let mut viols = vec![];
+                let o = run_overlay(g);
+                let v = o.violations.into_iter().map(|(s, m)| (format!("overlay-clock:{s}"), format!("{m} [slave clock = OverlayClock over the raw oscillator]"))).collect();
+                viol(g, (0, 0), &[], v, &mut viols);
+                (1, viols, None, 0, 0)
+            })
+            .collect();
+        results.extend(r);
+        rep.cover("overlay_clock_executions", json!(pts.len()));
     }
     // master change: a better master joins after convergence
     {
